@@ -394,9 +394,15 @@ Proof.
 Qed.
 Lemma pkgs_tags_iff k a : forall b, pkgs_tags k a b = [] <-> Forall2 SamePkg a b.
 Proof.
-  induction a as [|x a IH]; destruct b as [|y b]; cbn; split; intro H; try (constructor; fail); try discriminate; try (inversion H; fail).
-  - apply app_eq_nil in H. destruct H as [H1 H2]. constructor; [eapply pkg_tags_sound; eauto | apply IH; assumption].
-  - inversion H; subst. rewrite (pkg_tags_complete k x y) by assumption. apply IH. assumption.
+  induction a as [|x a IH]; intros [|y b]; cbn [pkgs_tags].
+  - split; intros _; [constructor | reflexivity].
+  - split; intro H; [discriminate | inversion H].
+  - split; intro H; [discriminate | inversion H].
+  - split; intro H.
+    + apply app_eq_nil in H. destruct H as [H1 H2].
+      constructor; [eapply pkg_tags_sound; eauto | apply IH; assumption].
+    + inversion H as [|? ? ? ? Hxy Hab]; subst.
+      rewrite (pkg_tags_complete k x y) by assumption. apply IH. assumption.
 Qed.
 Theorem index_validator_decides orig rb : index_rt_tags orig rb = [] <-> IndexRoundTrip orig rb.
 Proof.
